@@ -4,7 +4,7 @@
 From Coq Require Import List String Ascii NArith Lia Bool Arith.
 Import ListNotations.
 Require Import P.Generated.Enums P.Spec.Values P.Generated.Tables P.Meta.Scan P.Model.Base P.Model.Token P.Model.Reader P.Model.Trace
-  P.Model.Writer P.Model.Pool P.Model.Walk P.Model.Builder P.Model.Atom P.Spec.Events.
+  P.Model.Writer P.Model.Pool P.Model.Walk P.Model.Builder P.Model.Atom P.Spec.Events P.Spec.Pool P.Spec.Valence P.Checks.C18_defs.
 Local Open Scope string_scope.
 
 Definition show (l : list N) : string := string_of_list_ascii (map (fun c => if (c <? 128)%N then ascii_of_N c else "?"%char) l).
@@ -59,9 +59,14 @@ Definition run_reader_suite (cs : list reader_case) :=
 (* ------------------------------------------------------------ walk *)
 Record walk_case := WC { wc_g : list atom; wc_res : wres; wc_events : list ev; wc_build : bres'; wc_text : option (list N);
   wc_reread : bres'; wc_text2 : option (list N) }.
-Fixpoint show_nat (n : nat) : string := match n with 0 => "" | S n => "i" ++ show_nat n end.
+Fixpoint show_N_aux (fuel : nat) (n : N) (acc : string) : string :=
+  match fuel with O => acc | S f =>
+    let acc' := String (ascii_of_N (48 + n mod 10)) acc in
+    if (n <? 10)%N then acc' else show_N_aux f (n / 10) acc' end.
+Definition show_N (n : N) : string := show_N_aux 20 n "".
+Definition show_nat (n : nat) : string := show_N (N.of_nat n).
 Definition show_graph (g : list atom) : string :=
-  String.concat ";" (map (fun a => show (pp_kind (akind a)) ++ ":" ++ String.concat "," (map (fun b => show (pp_bond (bk b)) ++ ">" ++ string_of_list_ascii [ascii_of_nat (48 + tid b)]) (bonds a))) g).
+  String.concat ";" (map (fun a => show (pp_kind (akind a)) ++ ":" ++ String.concat "," (map (fun b => show (pp_bond (bk b)) ++ ">" ++ show_nat (tid b)) (bonds a))) g).
 Definition walk_model_ok (c : walk_case) : bool :=
   let '(r, h) := walk (wc_g c) in
   wres_eqb r (wc_res c) &&
@@ -70,15 +75,18 @@ Definition walk_model_ok (c : walk_case) : bool :=
   | WOk => list_eqb ev_eqb h (wc_events c) && bres_ok (bld h) (wc_build c) && otext_eqb (wr h) (wc_text c)
   | _ => list_eqb ev_eqb h (wc_events c) || match validate (wc_g c) with Some _ => true | None => false end
   end.
-Record walk_results := { wr_n : nat; wr_ok : nat; wr_model : list string; wr_conf : list string; wr_joins : list string }.
+Definition join_numbers (h : list ev) : list N := flat_map (fun e => match e with EJoin _ r => [r] | _ => [] end) h.
+Record walk_results := { wr_n : nat; wr_ok : nat; wr_model : list string; wr_conf : list string; wr_joins : list string; wr_least : list string }.
 Definition walk_analyse (cs : list walk_case) : walk_results :=
   let nm := fun c => show_graph (wc_g c) in
   {| wr_n := List.length cs; wr_ok := List.length (filter (fun c => wres_eqb (wc_res c) WOk) cs);
      wr_model := bad walk_model_ok nm cs; wr_conf := bad (fun c => conformant (wc_events c)) nm cs;
-     wr_joins := bad (fun c => match wc_res c with WOk => joins_matched (wc_events c) | _ => true end) nm cs |}.
+     wr_joins := bad (fun c => match wc_res c with WOk => joins_matched (wc_events c) | _ => true end) nm cs;
+     wr_least := bad (fun c => match wc_res c with WOk => joins_least_free (join_numbers (wc_events c)) [] | _ => true end) nm cs |}.
 Definition run_walk_suite (cs : list walk_case) :=
   let r := walk_analyse cs in
-  [("RESULT", "corr.walk_model", wr_model r); ("RESULT", "C08.walk_conformant", wr_conf r); ("RESULT", "C08.walk_joins_matched", wr_joins r)].
+  [("RESULT", "corr.walk_model", wr_model r); ("RESULT", "C08.walk_conformant", wr_conf r); ("RESULT", "C08.walk_joins_matched", wr_joins r);
+   ("RESULT", "C13.walk_joins_smallest_free", wr_least r)].
 
 (* ------------------------------------------------------------ histories: writer and builder driven directly *)
 Record hist_case := HC { hc_h : list ev; hc_text : option (list N); hc_build : bres'; hc_reread : option (verdict * list ev) }.
@@ -97,16 +105,31 @@ Definition run_hist_suite (cs : list hist_case) :=
 Record pool_case := PC { pc_hits : list (nat * nat); pc_out : list (option N) }.
 Definition pool_model_ok (c : pool_case) : bool := list_eqb (opt_eqb N.eqb) (hits pool0 (pc_hits c)) (pc_out c).
 Definition show_hits (l : list (nat * nat)) : string := String.concat " " (map (fun p => show_nat (fst p) ++ "-" ++ show_nat (snd p)) (firstn 12 l)).
+(* C13 oracle: the implementation's answers are those of the abstract allocator *)
+Definition pool_spec_ok (c : pool_case) : bool := list_eqb (opt_eqb N.eqb) (spec_hits [] (pc_hits c)) (pc_out c).
 Definition run_pool_suite (cs : list pool_case) :=
-  [("RESULT", "corr.pool_model", bad pool_model_ok (fun c => show_hits (pc_hits c)) cs)].
+  [("RESULT", "corr.pool_model", bad pool_model_ok (fun c => show_hits (pc_hits c)) cs);
+   ("RESULT", "C13.pool_smallest_free", bad pool_spec_ok (fun c => show_hits (pc_hits c)) cs)].
 
 (* ------------------------------------------------------------ atoms and kinds *)
 Record atom_case := AC { ac_a : atom; ac_sub : option N; ac_sup : option N; ac_arom : bool }.
 Definition atom_model_ok (c : atom_case) : bool :=
   opt_eqb N.eqb (Some (subvalence (ac_a c))) (ac_sub c) && opt_eqb N.eqb (Some (suppressed_hydrogens (ac_a c))) (ac_sup c) &&
   Bool.eqb (is_aromatic (akind (ac_a c))) (ac_arom c).
+(* C17 oracle: the implementation's answers against the specification over unbounded integers *)
+Definition spec_order_sum (bs : list bond) : N := fold_right (fun b n => (order_spec (bk b) + n)%N) 0%N bs.
+Definition atom_spec_ok (c : atom_case) : bool :=
+  opt_eqb N.eqb (ac_sup c) (Some (hydrogens_spec (akind (ac_a c)) (spec_order_sum (bonds (ac_a c))))) &&
+  match akind (ac_a c) with
+  | AK_Aliphatic a => opt_eqb N.eqb (ac_sub c) (Some (distance (std_valences (name_aliphatic a)) (spec_order_sum (bonds (ac_a c)))))
+  | AK_Aromatic a => opt_eqb N.eqb (ac_sub c) (Some (distance (std_valences (name_aromatic a)) (spec_order_sum (bonds (ac_a c)))))
+  | AK_Star => opt_eqb N.eqb (ac_sub c) (Some 0%N)
+  | _ => match ac_sub c with Some _ => true | None => false end
+  end.
 Definition run_atom_suite (cs : list atom_case) :=
-  [("RESULT", "corr.atom_model", bad atom_model_ok (fun c => show (pp_kind (akind (ac_a c))) ++ "/" ++ show_nat (Nat.min 12 (List.length (bonds (ac_a c))))) cs)].
+  [("RESULT", "C17.atom_hydrogens_spec", bad atom_spec_ok (fun c => show (pp_kind (akind (ac_a c))) ++ " with " ++ show_nat (List.length (bonds (ac_a c))) ++ " bonds") cs);
+   ("RESULT", "C06.atom_nopanic", bad (fun c => match ac_sub c, ac_sup c with Some _, Some _ => true | _, _ => false end) (fun c => show (pp_kind (akind (ac_a c))) ++ " with " ++ show_nat (List.length (bonds (ac_a c))) ++ " bonds") cs);
+   ("RESULT", "corr.atom_model", bad atom_model_ok (fun c => show (pp_kind (akind (ac_a c))) ++ "/" ++ show_nat (Nat.min 12 (List.length (bonds (ac_a c))))) cs)].
 Record kind_case := KC { kc_k : kind; kc_text : list N; kc_probe : list N; kc_read : tok kind; kc_inv : kres; kc_sum : N; kc_db : option kind;
   kc_targets : list N; kc_arom : bool }.
 Definition tok_kind_eqb (a b : tok kind) := match a, b with TOk k n, TOk k' n' => kind_eqb k k' && Nat.eqb n n' | TNo, TNo | TErrEol, TErrEol | TPanic, TPanic => true
